@@ -579,10 +579,16 @@ def check_histories(ctx, hists, label):
         if ov is not None:
             ctx.count('%s:recorded-capacities-exceed-memory' % label)
         violated = False
+        drifted = False
         for j, (s, v, t) in enumerate(zip(steps, verdicts, trace[1:])):
             ctx.count('%s:op:%s:%s' % (label, s['op'][0], s['outcome']))
-            if v[1] != 'ok' or s['anomalies']:
-                what = v[1] if v[1] != 'ok' else 'instrument-protocol: ' + '; '.join(s['anomalies'][:2])
+            if v[0] != 'judge' or v[1] != 'ok' or s['anomalies']:
+                if v[0] != 'judge':
+                    what = 'reference-counter-negative' if min(s['state'][3], default=0) < 0 else 'state-not-representable'
+                elif v[1] != 'ok':
+                    what = v[1]
+                else:
+                    what = 'instrument-protocol: ' + '; '.join(s['anomalies'][:2])
                 ctx.violation('after operation %d (%s) of the history the driver state breaks the invariant: %s; '
                               'hashes=%s refs=%s contents=%s programs=%s'
                               % (j, s['op'], what, s['state'][0], s['state'][3], s['state'][4], s['state'][5]),
@@ -590,6 +596,8 @@ def check_histories(ctx, hists, label):
                 violated = True
                 bad.append(hist)
                 break
+            if drifted:
+                continue          # the model is no longer followed, the judge still is
             # bookkeeping comparison with the model
             m_out = t[0] if isinstance(t[0], str) else t[0][1]
             mh, mc, ml, mr, mp, mg = t[1]
@@ -602,17 +610,21 @@ def check_histories(ctx, hists, label):
             if not same:
                 ctx.drift('TaborChannelPair bookkeeping vs QP.C19.step', {'history': hist, 'at': j},
                           {'outcome': s['outcome'], 'state': s['state']}, core.sx(t))
-                break
+                drifted = True
         # the decisions taken on the way are judged as well
         dl, dc = [], []
         for before, segs, ans in d.decisions:
+            if min(before[1], default=0) < 0:
+                continue
             case = (tuple(before[0]), tuple(before[1]), tuple(before[2]), hist['total'],
-                    tuple(i for i, _ in segs), tuple(l for _, l in segs), 'i')
+                    tuple(i for i, _ in segs), tuple(l for _, l in segs), 'u')   # the driver's dtypes
             dc.append((case, ans))
             dl.append(place_line(case, ans))
         if dl and not violated:
             for (case, ans), r in zip(dc, core.Lean.run(dl)):
                 ctx.count('%s:decisions-judged' % label)
+                if r[0] != 'res':
+                    raise core.MachineryError('driver: %r' % (r,))
                 if ans[0] == 'ok' and r[2] != 'ok':
                     ctx.violation('unsafe placement in a reached driver state: %s; case=%s -> %s' % (r[2], case, ans),
                                   {'kind': 'place', 'case': [list(c) if isinstance(c, tuple) else c for c in case],
@@ -626,7 +638,7 @@ def shrink_history(ctx, hist):
         if not steps:
             return False
         for s, v in zip(steps, core.Lean.run(judge_lines(steps))):
-            if v[1] != 'ok' or s['anomalies']:
+            if v[0] != 'judge' or v[1] != 'ok' or s['anomalies']:
                 return True
         return False
     cur = dict(hist)
@@ -696,9 +708,9 @@ def _escalate(ctx, drifted):
     for chunk in _chunks(lattice(**THOROUGH_LATTICE), 40000):
         if check_place(ctx, chunk, 'search-lattice'):
             return
-        if ctx.elapsed() > 600:
+        if ctx.elapsed() > (150 if ctx.quick else 900):
             break
-    for _ in range(10):
+    for _ in range(4 if ctx.quick else 10):
         if check_place(ctx, [random_layout(rng, unsigned=(rng.random() < 0.3)) for _ in range(5000)], 'search-random'):
             return
     # neighbourhood of the disagreeing inputs
